@@ -3,6 +3,8 @@ import json, os, sys
 VERIF = os.path.dirname(os.path.dirname(os.path.abspath(__file__)))
 rows = []
 for sid in sorted(os.listdir(os.path.join(VERIF, "seeded"))):
+    if not os.path.exists(os.path.join(VERIF, "seeded", sid, "meta.json")):
+        continue
     m = json.load(open(os.path.join(VERIF, "seeded", sid, "meta.json")))
     det = []
     for prop, d in sorted(m.get("detection", {}).items()):
